@@ -218,6 +218,14 @@ func kindGrid(progs []*c19Prog, baseSeed uint64) []*Scenario {
 	mk(flat, func(s *Scenario) { s.Cwd = "root" })
 	mk(flat, func(s *Scenario) { s.BOM = true })
 	mk(flat, func(s *Scenario) { s.MixedEOL = 7 })
+	// encodings x locales (a locale must never decide how the source is read), with and without a leading comment
+	for _, e := range []string{"sjis", "utf8"} {
+		for li, loc := range []string{"LANG=ja_JP.UTF-8", "LC_ALL=ja_JP.UTF-8", "LC_CTYPE=ja_JP.SJIS", "LANG=ja_JP.eucJP", "LC_ALL=C", "LANG=en_US.UTF-8"} {
+			e, loc, li := e, loc, li
+			mk(flat, func(s *Scenario) { s.Enc, s.DecoSeed, s.Env, s.NoLead = e, s.Seed|1, []string{loc}, li%2 == 0 })
+			mk(coff, func(s *Scenario) { s.Enc, s.DecoSeed, s.Env, s.NoLead = e, s.Seed|1, []string{loc}, li%2 == 1 })
+		}
+	}
 	for _, e := range []string{"ascii", "sjis", "utf8"} {
 		e := e
 		mk(flat, func(s *Scenario) { s.BareCR, s.Enc, s.DecoSeed = true, e, s.Seed|1 })
@@ -283,6 +291,7 @@ func (c *c19Ctx) genScenario(seed uint64, progs []*c19Prog) *Scenario {
 	if !s.CRLF && s.RawSrc == "" && r.Chance(1, 12) {
 		s.MixedEOL = r.U64() | 1
 	}
+	s.NoLead = r.Chance(1, 4)
 	if !s.CRLF && s.RawSrc == "" && r.Chance(1, 14) {
 		s.BareCR = true // whole file, or (with MixedEOL) some of the lines
 	}
